@@ -185,7 +185,7 @@ def run(res, tier, seed, model_ok, search):
     res.evaluations += sub.evaluations
     res.distribution["live-histories"] += sub.evaluations
     for v in sub.violations:
-        if v["signature"] in ("revived-after-complete", "partial-cancel-overtaken-by-stream", "live-processing-crashed"):
+        if v["signature"] in ("revived-after-complete", "partial-cancel-overtaken-by-stream", "live-processing-crashed", "two-operations-in-flight"):
             res.violations.append(v)
         elif v["signature"] == "not-converged" and "complete local True exchange False" in v["what"] or (
                 v["signature"] == "not-converged" and "local status EXECUTION_COMPLETE" in v["what"]):
